@@ -1,15 +1,20 @@
 """C01 — only validated response frames are ever delivered as results."""
 from .common import *
 
-SIDECARS = ["modbus", "protocol_cmd"]
+SIDECARS = ["modbus", "protocol_cmd", "protocol_sm"]
 KEYS = ["goodwe.modbus._modbus_checksum", "goodwe.modbus.validate_modbus_rtu_response",
         "goodwe.modbus.validate_modbus_tcp_response",
         "goodwe.protocol.Aa55ProtocolCommand._validate_aa55_response"]
 
 
 def units(tier):
+    from . import C04
     return (contract_units(SIDECARS, KEYS, tier) + bv_units(SIDECARS, KEYS[0], (0,), tier)
-            + diff_units(SIDECARS, KEYS, tier))
+            + diff_units(SIDECARS, KEYS, tier)
+            + [u for u in C04.protocol_units(tier) if "received" in u[4] or "execute" in u[4]])
+
+
+replay = replay_protocol
 
 
 INFO = {
